@@ -76,7 +76,7 @@ Example C05_nonvacuous :
   let c := mkTCase true Qual [VStr "a"; VStr "__OTHER__"; VStr "__NAN__"]
              [(VStr "a", [VStr "a"]); (VStr "__OTHER__", [VStr "z"; VStr "__OTHER__"]);
               (VStr "__NAN__", [VStr "__NAN__"])]
-             (VStr "__NAN__") (VStr "__OTHER__") true OFloat [] 1 [] [] [] (IOk []) in
+             (VStr "__NAN__") (VStr "__OTHER__") true OFloat [[]] 1 [] [] [] (IOk []) in
   premises_b c = true /\
   transform_cell (t_state c) (VStr "never seen") = Ok (OLab (LRank 1)) /\
   transform_cell (t_state c) VNaN = Ok (OLab (LRank 2)).
